@@ -25,8 +25,16 @@ type Sched struct {
 
 // Explore runs it (in this process' shard when the run is forked).
 func (q *Sched) Explore() *vrt.Explorer {
+	sh, n := q.Run.Shard()
+	return q.explore(sh, n)
+}
+
+// ExploreUnsharded explores the whole schedule space in this process even when the run is forked
+// (for harnesses that distribute whole scenarios over the shards themselves).
+func (q *Sched) ExploreUnsharded() *vrt.Explorer { return q.explore(0, 1) }
+
+func (q *Sched) explore(sh, n int) *vrt.Explorer {
 	r := q.Run
-	sh, n := r.Shard()
 	x := &vrt.Explorer{Body: q.Body, Check: q.Check, MaxPreempt: q.MaxPreempt, MaxSteps: q.MaxSteps, Shard: sh, NShard: n}
 	dl := time.Now().Add(q.Budget)
 	x.Stop = func() bool {
